@@ -42,6 +42,8 @@ def state_labels(scheme, n):
         return list(range(n))
     if scheme == "str":
         return [f"s{i}" for i in range(n)]
+    if scheme == "int_gap":     # integers that are not their own position
+        return [2 * i + 1 for i in range(n)]
     if scheme == "tuple":
         return [(i // 2, i % 2) for i in range(n)]
     if scheme == "fd":
@@ -59,6 +61,8 @@ def action_labels(scheme, m):
         return list(range(m))
     if scheme == "str":
         return [f"a{i}" for i in range(m)]
+    if scheme == "int_gap":     # integers that are not their own position (e.g. moves -1, +2, +5)
+        return [3 * i - 1 for i in range(m)]
     if scheme == "tuple":
         return [(i, -i) for i in range(m)]
     if scheme == "fd":
